@@ -30,6 +30,9 @@ RULE = (
     "every argument in equivalent spellings (region / shape / spacing / extra_coords / profile points as tuple, list, ndarray of ints or "
     "floats, Python and numpy scalars incl. extra_coords exactly 0 / 0.0; sizes and seeds as int / np.int64 / RandomState; names as bare "
     "string, list, tuple; projections as callable object, plain function, functools.partial); "
+    "explicit 1-D coordinates taken from an existing grid with other dimension names as xarray index coordinates, pandas Index / Series, "
+    "lists, tuples (the new grid must have exactly the requested dims); profile end points as rows of int16 / int32 / int64 coordinate "
+    "arrays whose squared differences overflow the dtype, Python ints, float32 scalars; "
     "large counts (grids of 2.5e5..6e5 nodes with row counts that are no multiple of small block heights - 700x600, 1201x501 from a spacing, "
     "530x990 projected, 641x479 Trend, ... - and scatter / profile with > 1e5 points, every node and row compared); concurrent calls "
     "(2..4 threads calling grid / scatter / profile on ONE gridder at the same time with different regions, same shape, different "
@@ -43,6 +46,8 @@ RULE = (
     "constants / class, arguments and output coordinates."
 )
 ASSUMPTIONS = [
+    "profile end points given in a narrow dtype (float32, int16) are carried by numpy in float32: the profile is then compared with the "
+    "float64 spelling at float32 precision (32 eps32 |coordinates|), counted under either_way:profile_end_points_in_narrow_dtype_*",
     "naming defaults (dims, extra_coords_name, data_names_defaults) a call must fall back to are those the gridder had when the workload "
     "created it (for gridders the workload did not create: those in place when the call started); grid/profile/scatter must leave them unchanged",
     "regular coordinates are decided by vmon.ref.check_line (exact rational interval count, 8 eps node tolerance), not by verde",
@@ -71,6 +76,11 @@ _QUICK_FLOORS = {
     "spelling:grid_projection=partial": 190, "spelling:grid_projection=function": 190, "spelling:profile_projection=partial": 70,
     "spelling:profile_size=np_int": 260, "spelling:profile_point=ndarray_float": 130, "spelling:scatter_random_state=np_int": 110,
     "spelling:scatter_random_state=RandomState": 110, "spelling:scatter_size=np_int": 250,
+    # output of one call fed into another; end-point dtypes
+    "class:grid_coordinates_from_a_grid_with_other_dims": 50, "class:grid_coordinates_given_as=DataArray": 55,
+    "class:grid_coordinates_given_as=Index": 12, "class:grid_coordinates_given_as=Series": 12, "class:grid_coordinates_given_as=list": 30,
+    "class:profile_integer_valued_end_points": 100, "spelling:profile_end_point_dtype=int16": 12, "spelling:profile_end_point_dtype=int32": 30,
+    "spelling:profile_end_point_dtype=float32": 15, "spelling:profile_end_point_dtype=int": 12,
     # call histories on one gridder object
     "eval:defaults_unchanged": 2600, "class:history_dims_given_then_omitted": 100, "class:history_data_names_given_then_omitted": 100,
     "class:history_projection_given_then_omitted": 95, "class:history_region_given_then_omitted": 50,
@@ -325,6 +335,9 @@ def install(tap, run):
         spec = None
         if given is not None:
             east_in, north_in = np.asarray(given[0]), np.asarray(given[1])
+            run.count("class:grid_coordinates_given_as=" + G.container_name(given[0]))
+            if G.container_name(given[0]) == "DataArray" and tuple(getattr(given[0], "dims", ())) != (dims[1],):
+                run.count("class:grid_coordinates_from_a_grid_with_other_dims")
             if east_in.ndim == 1 and north_in.ndim == 1:
                 e_want, n_want = east_in, north_in
                 run.count("class:grid_explicit_coordinates_1d")
@@ -368,7 +381,16 @@ def install(tap, run):
             else:
                 e_out, n_out = np.asarray(ds.coords[dims[1]].values), np.asarray(ds.coords[dims[0]].values)
                 if tuple(ds.coords[dims[1]].dims) != (dims[1],) or tuple(ds.coords[dims[0]].dims) != (dims[0],):
-                    problems.append("axis coordinates do not span their own dimension")
+                    problems.append("axis coordinates do not span their own dimension: %s%r %s%r"
+                                    % (dims[1], tuple(ds.coords[dims[1]].dims), dims[0], tuple(ds.coords[dims[0]].dims)))
+                elif dict(ds.sizes) != {dims[0]: n_out.size, dims[1]: e_out.size}:
+                    problems.append("the grid has dimensions %r, requested exactly %r" % (dict(ds.sizes), dims))
+                else:
+                    for name in ds.data_vars:
+                        stray = [str(c) for c in ds[name].coords if tuple(ds[name].coords[c].dims) not in ((dims[0],), (dims[1],), (dims[0], dims[1]))]
+                        if stray:
+                            problems.append("variable %r carries coordinates %r that do not lie on the requested dims %r" % (name, stray, dims))
+                            break
         if not problems:
             # ---- coordinate vectors
             tie = False
@@ -512,7 +534,15 @@ def install(tap, run):
         y_ref = q1[1] + t * (q2[1] - q1[1])
         d_ref = t * sep
         mag_p = max(abs(q1[0]), abs(q1[1]), abs(q2[0]), abs(q2[1])) + sep
-        tol_p = 32 * EPS * mag_p + TINY
+        # end points given in a narrow dtype (float32, int16): numpy carries the whole computation in float32, the statement does not
+        # promise more than the precision of its inputs
+        eps_in = EPS
+        narrow = [np.asarray(v).dtype for v in (a["point1"][0], a["point1"][1], a["point2"][0], a["point2"][1])
+                  if isinstance(v, np.generic) and ((v.dtype.kind == "f" and v.dtype.itemsize < 8) or (v.dtype.kind in "iu" and v.dtype.itemsize <= 2))]
+        if narrow:
+            eps_in = float(np.finfo("float32").eps)
+            run.count("either_way:profile_end_points_in_narrow_dtype_float32_tolerance")
+        tol_p = 32 * eps_in * mag_p + TINY
         extras = [] if kwargs.get("extra_coords") is None else [float(v) for v in np.atleast_1d(kwargs["extra_coords"])]
         extra_names = expected_extra_names(defaults, len(extras))
         n_components = 0
@@ -539,7 +569,7 @@ def install(tap, run):
                 e_want, n_want = np.asarray(e_want, dtype="float64"), np.asarray(n_want, dtype="float64")
                 lip = projection.inverse_lipschitz(x_ref, y_ref)
                 mag_out = max(float(np.max(np.abs(e_want))), float(np.max(np.abs(n_want))), abs(p1[0]), abs(p1[1]), abs(p2[0]), abs(p2[1]))
-                tol_out = 64 * EPS * (lip * (mag_p + projection.offsets()) + mag_out) + TINY
+                tol_out = 64 * eps_in * (lip * (mag_p + projection.offsets()) + mag_out) + TINY
             if not problems:
                 ratio = float(max(np.max(np.abs(east_out - e_want)), np.max(np.abs(north_out - n_want))) / tol_out)
                 run.observe_max("profile_coordinate_error_over_tolerance", ratio)
@@ -581,6 +611,8 @@ def install(tap, run):
                         if not bool(np.all(table[name].to_numpy() == value)):
                             problems.append("extra coordinate column %r is not the constant %r" % (name, value))
         run.evaluated("profile")
+        run.count("spelling:profile_end_point_dtype=%s" % "/".join(sorted({G.scalar_dtype_name(v) for v in (
+            a["point1"][0], a["point1"][1], a["point2"][0], a["point2"][1])})))
         count_spellings("profile", size=a["size"], point=a["point1"], extra_coords=kwargs.get("extra_coords"), dims=a["dims"],
                         data_names=a["data_names"], projection=projection)
         count_common("profile", gridder, defaults, projection, a["dims"], a["data_names"], n_components, len(extras))
@@ -814,10 +846,49 @@ def _stream_analytic_coords(run, rng):
         kwargs = G.gen_names(rng, n_comp)
         if rng.random() < 0.35:
             kwargs["projection"] = G.gen_projection(rng, region)
+        if rng.random() < 0.4:
+            coordinates = fed_coordinates(run, rng, gridder, e_vec, n_vec, extras, kwargs)
         grid = gridder.grid(coordinates=coordinates, **G.spell_call(rng, kwargs))
     run.sample("analytic_explicit_coordinates", {"constants": [list(c) for c in gridder.consts], "easting": e_vec, "northing": n_vec,
                                                  "two_d": np.ndim(coordinates[0]) == 2, "n_extra": len(extras),
                                                  "first_variable": grid[list(grid.data_vars)[0]].values})
+
+
+SOURCE_DIMS = [("latitude", "longitude"), ("lat", "lon"), ("y", "x"), ("northing", "easting"), ("easting", "northing")]
+
+
+def fed_coordinates(run, rng, gridder, e_vec, n_vec, extras, kwargs):
+    """
+    The output of one public call fed into another: the 1-D coordinates of the new grid are taken from an EXISTING grid (made by
+    grid(coordinates=...) with its own dimension names) as xarray index coordinates, pandas Index / Series, lists or tuples. The
+    dimension names of the source differ from those requested for the new grid in most cases.
+    """
+    import pandas as pd
+
+    source_dims = SOURCE_DIMS[int(rng.integers(0, len(SOURCE_DIMS)))]
+    source = gridder.grid(coordinates=(e_vec, n_vec), dims=source_dims)
+    east, north = source[source_dims[1]], source[source_dims[0]]
+    form = str(rng.choice(["DataArray", "DataArray", "DataArray", "Index", "Series", "list", "tuple"]))
+    if form == "Index":
+        east, north = source.indexes[source_dims[1]], source.indexes[source_dims[0]]
+    elif form == "Series":
+        east = pd.Series(east.values, index=rng.permutation(east.size) + 100)
+        north = pd.Series(north.values, index=rng.permutation(north.size) + 7)
+    elif form == "list":
+        east, north = east.values.tolist(), north.values.tolist()
+    elif form == "tuple":
+        east, north = tuple(east.values.tolist()), tuple(north.values.tolist())
+    requested = tuple(kwargs["dims"]) if "dims" in kwargs else tuple(gridder.dims)
+    run.count("class:fed_coordinates_%s_%s" % (form, "other_dims" if tuple(requested) != tuple(source_dims) else "same_dims"))
+    if form == "DataArray" and rng.random() < 0.15:
+        # 2-D DataArrays: the unchanged code refuses them (IndexError in check_meshgrid); counted, not judged
+        big_e, big_n = source[source_dims[1]].broadcast_like(source), source[source_dims[0]].broadcast_like(source)
+        try:
+            gridder.grid(coordinates=(big_e.transpose(*source_dims), big_n.transpose(*source_dims)), **{k: v for k, v in kwargs.items() if k != "projection"})
+            run.count("observed:grid_accepted_2d_dataarray_coordinates")
+        except (IndexError, TypeError, ValueError) as exc:
+            run.count("refused:grid_2d_dataarray_coordinates_" + type(exc).__name__)
+    return (east, north) + tuple(extras)
 
 
 def gen_profile_points(rng, region):
@@ -848,7 +919,15 @@ def _stream_analytic_profile(run, rng):
             kwargs["extra_coords"] = float(np.round(rng.normal() * 10, 2))
         elif roll < 0.3:
             kwargs["extra_coords"] = [float(np.round(v * 10, 2)) for v in rng.normal(size=2)]
-        p1, p2 = G.spell_point(rng, p1), G.spell_point(rng, p2)
+        if rng.random() < 0.3:
+            # end points taken from integer coordinate arrays: fixed-width numpy integers whose squared difference overflows the dtype
+            # (> 181 for int16, > 46340 for int32), Python ints, float32 scalars - compared with the float64 spelling by the monitor
+            p1, p2, box = G.gen_integer_end_points(rng)
+            if "projection" in kwargs:
+                kwargs["projection"] = G.gen_projection(rng, box)
+            run.count("class:profile_integer_valued_end_points")
+        else:
+            p1, p2 = G.spell_point(rng, p1), G.spell_point(rng, p2)
         table = gridder.profile(p1, p2, G.spell_count(rng, size), **G.spell_call(rng, kwargs))
     run.sample("analytic_profile", {"constants": [list(c) for c in gridder.consts], "point1": p1, "point2": p2, "size": size,
                                     "call": {k: (v.describe() if hasattr(v, "describe") else v) for k, v in kwargs.items()},
